@@ -114,7 +114,8 @@ def substitute(template, authority, sid):
 
 
 def run_scenario(squid_port, origin, sid, template, cuts, sentinel_tag, timeout=6.0):
-    """-> observation string: F=<method hex>:<tag>:<body length>:<adler>,... J=<junk notes> R=<statuses> E=<closed|open>"""
+    """-> observation string: F=<method hex>:<tag>:<body length>:<adler>,... J=<junk notes> R=<statuses> E=<closed|open|timeout>
+    A=<origin port> S=<scenario id>   (checksums are over the bytes on the wire: the oracle substitutes A and S into the template)"""
     data = substitute(template, origin.authority(), sid.encode())
     c = socket.create_connection(("127.0.0.1", squid_port), timeout=timeout * rig.VERIF_SLOW)
     got = bytearray()
@@ -150,12 +151,14 @@ def run_scenario(squid_port, origin, sid, template, cuts, sentinel_tag, timeout=
     except OSError:
         pass
     deadline = time.time() + timeout * rig.VERIF_SLOW
-    quiet_since = None
+    settled = False
     while time.time() < deadline:
         recs = origin.records(sid)
         if closed[0]:
+            settled = True
             break
         if sentinel_tag is not None and any(r.get("tag") == sentinel_tag for r in recs):
+            settled = True
             # the sentinel reached the origin: everything before it has been processed; let its response come back
             t1 = time.time() + 1.0 * rig.VERIF_SLOW
             want = got.count(b"HTTP/1.")
@@ -167,7 +170,7 @@ def run_scenario(squid_port, origin, sid, template, cuts, sentinel_tag, timeout=
         time.sleep(0.01)
     # settle: allow in-flight origin records to land
     time.sleep(0.03 * rig.VERIF_SLOW)
-    end = "closed" if closed[0] else "open"
+    end = "closed" if closed[0] else ("open" if settled else "timeout")
     closed[0] = True
     try:
         c.close()
@@ -184,8 +187,7 @@ def run_scenario(squid_port, origin, sid, template, cuts, sentinel_tag, timeout=
             notes = "!framing-fields-cl%d-te%d" % (r["ncl"], r["nte"])
         elif r["tol"]:
             notes = "!" + "+".join(r["tol"])
-        # the checksum is taken over the body as the template spells it (hidden requests inside bodies were substituted too)
-        body = r["body"].replace(origin.authority(), FAKE_AUTH).replace(sid.encode(), FAKE_SID)
-        fw.append("%s:%s:%d:%d%s" % (r["method"].hex(), r["tag"], len(body), adler(body), notes))
+        fw.append("%s:%s:%d:%d%s" % (r["method"].hex(), r["tag"], len(r["body"]), adler(r["body"]), notes))
     statuses = re.findall(rb"HTTP/1\.[01] (\d{3})", bytes(got))
-    return "F=%s J=%s R=%s E=%s" % (",".join(fw) or "-", ",".join(junk) or "-", ",".join(s.decode() for s in statuses) or "-", end)
+    return "F=%s J=%s R=%s E=%s A=%d S=%s" % (",".join(fw) or "-", ",".join(junk) or "-", ",".join(s.decode() for s in statuses) or "-", end,
+                                              origin.port, sid)
